@@ -1,4 +1,5 @@
 import Dcg.Model.Determinism
+import Dcg.Proofs.Determinism
 import Dcg.Gen.SetSites
 /-
 C08 — output is a function of input and options only.
@@ -11,7 +12,7 @@ ordering, the Jinja/black/isort internals and process history are run-time behav
 theorem here exhibits: they are covered by the differential runs of vlib/props/c08.py only.
 -/
 namespace Dcg.Props.C08
-open Dcg.Model.Determinism Dcg.Gen.SetSites
+open Dcg.Model.Determinism Dcg.Proofs.Determinism Dcg.Gen.SetSites
 
 /-! ### Tables (re-checked by the kernel against the current source) -/
 
@@ -61,17 +62,21 @@ theorem memoised_results_immutable_or_reviewed :
   decide +kernel
 
 def listingOK (s : ListingSite) : Bool :=
-  (s.isSorted && s.key == k! "") ||
+  (s.isSorted && s.keyShape == k! "natural") ||
   match reviewedListingSites.lookup (s.file, s.func, s.call) with
-  | some .sortedByBasename => s.isSorted && s.key == k! "lambda p: p.name"
-  | some .firstFileDecidesInputType => true
+  | some .sortedByBasenameThenPath => s.isSorted && s.keyShape == k! "basename-then-path"
   | none => false
 
 /-- Every call of a directory-listing primitive in the source (`rglob`, `glob`, `iglob`, `iterdir`, `os.walk`, `os.fwalk`,
-`os.listdir`, `os.scandir`) is the first argument of `sorted(` without a key (the natural order of paths is total), or is on
-the reviewed list — and the directory-input site is still `sorted(…, key=lambda p: p.name)`, the shape
-`iterSource_perm_invariant` talks about. -/
-theorem listing_sites_sorted : listingSites.all listingOK = true ∧ listingSites.isEmpty = false := by
+`os.listdir`, `os.scandir`) is the first argument of `sorted(` without a key (the natural order of paths is total:
+`perm_invariant_of_sorted`), or is on the reviewed list with the key shape `lambda p: (p.name, p.as_posix())` that
+`iterSource_perm_invariant` talks about (recognised structurally by the translator; every other key is shape `other` and
+breaks this). The two sites the package has are still there, each with its shape: `get_first_file` sorted without key (the
+inferred input type of a directory does not depend on the listing order), `Parser.iter_source` sorted by (basename, path). -/
+theorem listing_sites_sorted :
+    listingSites.all listingOK = true ∧
+    expectedListingSites.all (fun e => listingSites.any (fun s =>
+      s.file == e.1 && s.func == e.2.1 && s.call == e.2.2.1 && s.isSorted && s.keyShape == e.2.2.2)) = true := by
   decide +kernel
 
 /-- Every mutable object created in a class body (shared by all instances and all runs) is on the
@@ -119,29 +124,74 @@ example : [3, 1, 2].mergeSort (fun a b => decide (a ≤ b)) = [2, 3, 1].mergeSor
     (by intro a b _ _; simp only [decide_eq_true_eq]; omega)
     (List.isPerm_iff.mp (by decide))
 
-/-- directory inputs (`sorted(rglob("*"), key=lambda p: p.name)`): the iteration order does not
-depend on the listing order PROVIDED no two files have the same key (basename). -/
-theorem iterSource_perm_invariant {α : Type} (key : α → Nat) (l₁ l₂ : List α)
-    (inj : ∀ a b, a ∈ l₁ → b ∈ l₁ → key a = key b → a = b) (hp : l₁.Perm l₂) :
-    sortByKey key l₁ = sortByKey key l₂ := by
-  unfold sortByKey
-  apply perm_invariant_of_sorted _ l₁ l₂ _ _ _ hp
-  · intro a b c hab hbc
-    simp only [decide_eq_true_eq] at *
-    omega
-  · intro a b
-    simp only [Bool.or_eq_true, decide_eq_true_eq]
-    omega
-  · intro a b ha hb hab hba
-    simp only [decide_eq_true_eq] at hab hba
-    exact inj a b ha hb (by omega)
+/-- `get_first_file` since the repair of C08-auto-dir (`sorted(path.rglob("*"))`, no key): the file whose text decides the
+inferred input type of a directory (`input_file_type=Auto`) does not depend on the order in which the operating system lists
+the directory — for every listing, every total order of the entries and every set of entries that are files. -/
+theorem firstFile_perm_invariant {α : Type} (le : α → α → Bool) (isFile : α → Bool) (l₁ l₂ : List α)
+    (trans : ∀ a b c, le a b → le b c → le a c) (total : ∀ a b, le a b || le b a)
+    (anti : ∀ a b, le a b → le b a → a = b) (hp : l₁.Perm l₂) :
+    firstFile le isFile l₁ = firstFile le isFile l₂ := by
+  unfold firstFile
+  rw [perm_invariant_of_sorted le l₁ l₂ trans total (fun a b _ _ => anti a b) hp]
 
-/-- …and the hypothesis is needed: two files with the same basename keep their listing order -/
-theorem iterSource_same_basename_order_dependent :
-    sortByKey (fun p : Nat × Nat => p.2) [(1, 7), (2, 7)] ≠ sortByKey (fun p : Nat × Nat => p.2) [(2, 7), (1, 7)] := by
-  unfold sortByKey
-  rw [List.mergeSort_of_pairwise (by simp), List.mergeSort_of_pairwise (by simp)]
+/-- non-vacuity, and the former witness of C08-auto-dir: the hypotheses hold for Python's string order; the directory
+`a` (not a file), `a/service_api.json` and `b/thing.json` listed in two orders gives `a/service_api.json` both times -/
+example :
+    let a := [97]
+    let api := [97, 47, 115, 101, 114, 118, 105, 99, 101, 95, 97, 112, 105, 46, 106, 115, 111, 110]
+    let thing := [98, 47, 116, 104, 105, 110, 103, 46, 106, 115, 111, 110]
+    firstFile strLe (· != a) [thing, api, a] = firstFile strLe (· != a) [a, api, thing] ∧
+    firstFile strLe (· != a) [a, api, thing] = some api := by
+  intro a api thing
+  refine ⟨firstFile_perm_invariant strLe _ _ _ strLe_trans strLe_total strLe_antisymm (List.isPerm_iff.mp (by decide)), ?_⟩
+  unfold firstFile
+  rw [List.mergeSort_of_pairwise (by decide)]
   decide
+
+/-- Directory inputs (`sorted(self.source.rglob("*"), key=lambda p: (p.name, p.as_posix()))`): the order in which the files of
+a directory are parsed does not depend on the order in which the operating system lists them — for EVERY listing, whatever
+maps a path to its basename, equal basenames in different directories included. (The entries of a listing are pairwise
+distinct paths; the statement does not even need that.) Unconditional since the repair of C08-basename: the key's second
+component is the entry itself, so two entries with equal keys are equal (`keyLe_antisymm`). -/
+theorem iterSource_perm_invariant (name : Str → Str) (l₁ l₂ : List Str) (hp : l₁.Perm l₂) :
+    iterSourceOrder name l₁ = iterSourceOrder name l₂ :=
+  perm_invariant_of_sorted (keyLe name) l₁ l₂ (keyLe_trans name) (keyLe_total name)
+    (fun a b _ _ => keyLe_antisymm name a b) hp
+
+/-- non-vacuity, and the former witness of C08-basename: `common.json`, `sub/common.json` and `other/delta.json` (code
+points) are parsed in the same order — `common.json` before `sub/common.json` — however the directory is listed -/
+example :
+    let common := [99, 111, 109, 109, 111, 110, 46, 106, 115, 111, 110]
+    let sub := [115, 117, 98, 47] ++ common
+    let delta := [111, 116, 104, 101, 114, 47, 100, 101, 108, 116, 97, 46, 106, 115, 111, 110]
+    basename sub = common ∧
+    iterSourceOrder basename [sub, delta, common] = [common, sub, delta] ∧
+    iterSourceOrder basename [delta, common, sub] = [common, sub, delta] := by
+  intro common sub delta
+  have hs : iterSourceOrder basename [common, sub, delta] = [common, sub, delta] :=
+    List.mergeSort_of_pairwise (by decide)
+  refine ⟨by decide, ?_, ?_⟩
+  · rw [iterSource_perm_invariant basename _ [common, sub, delta] (List.isPerm_iff.mp (by decide))]; exact hs
+  · rw [iterSource_perm_invariant basename _ [common, sub, delta] (List.isPerm_iff.mp (by decide))]; exact hs
+
+/-- The repair changed nothing for the directories that were already deterministic: when no two listed files have the same
+basename, sorting by (basename, path) gives exactly the order that sorting by basename alone (the code before the repair)
+gave. Not a statement about the current code's determinism — it relates the repaired key to the old one. -/
+theorem iterSource_order_unchanged_for_distinct_basenames (name : Str → Str) (l : List Str)
+    (inj : ∀ a ∈ l, ∀ b ∈ l, name a = name b → a = b) :
+    iterSourceOrder name l = basenameOnlyOrder name l := by
+  unfold iterSourceOrder basenameOnlyOrder
+  refine sorted_unique (fun a b => strLe (name a) (name b) = true) l l _ _ ?_ (List.Perm.refl l)
+    (List.mergeSort_perm l _) (List.mergeSort_perm l _) ?_ ?_
+  · intro a b ha hb hab hba
+    exact inj a ha b hb (strLe_antisymm _ _ hab hba)
+  · exact (List.pairwise_mergeSort (keyLe_trans name) (keyLe_total name) l).imp (fun h => keyLe_imp_nameLe name _ _ h)
+  · exact List.pairwise_mergeSort (le := fun a b => strLe (name a) (name b)) (fun a b c => strLe_trans _ _ _)
+      (fun a b => strLe_total _ _) l
+
+/-- the hypothesis is satisfiable by a listing with several files in several directories -/
+example : ∀ a ∈ [[97, 47, 120], [98, 47, 121], [122]], ∀ b ∈ [[97, 47, 120], [98, 47, 121], [122]],
+    basename a = basename b → a = b := by decide
 
 /-- `buildsASet` / all / any / membership: a fold with an operation whose steps commute gives the
 same result for every order of the elements. -/
